@@ -306,7 +306,7 @@ theorem pcaPre_c06_perm (π : Equiv.Perm (Fin N)) (X : Mat N D K) :
     intro μ
     funext a b
     unfold TapkeeVerif.covarianceUpper permRows
-    rw [sumFin_perm π (fun i => X i a * X i b)]
+    rw [sumFin_perm π (fun i => (X i a - μ a) * (X i b - μ b))]
   unfold TapkeeVerif.pcaPre TapkeeVerif.covarianceMatrix
   rw [hmean, hup]
 
@@ -325,17 +325,8 @@ theorem pcaPre_c06_translation [CharZero K] (X : Mat N D K) (t : Vec D K) (hN : 
     unfold TapkeeVerif.covarianceUpper
     by_cases hab : a ≤ b
     · simp only [hab, if_true, hmean]
-      have : (sumFin N fun i => translate X t i a * translate X t i b)
-          = (sumFin N fun i => X i a * X i b) + t b * (sumFin N fun i => X i a) + t a * (sumFin N fun i => X i b)
-            + (N : K) * (t a * t b) := by
-        unfold translate
-        rw [← sumFin_mul_left, ← sumFin_mul_left, ← sumFin_const (n := N) (t a * t b), ← sumFin_add, ← sumFin_add,
-          ← sumFin_add]
-        exact sumFin_congr fun i => by ring
-      rw [this]
-      unfold TapkeeVerif.computeMean
-      field_simp
-      ring
+      congr 1
+      exact sumFin_congr fun i => by unfold translate; ring
     · simp only [hab, if_false]
   unfold TapkeeVerif.pcaPre TapkeeVerif.covarianceMatrix
   rw [hup]
@@ -380,12 +371,13 @@ theorem pcaPre_c06_scale (c : K) (X : Mat N D K) :
     unfold TapkeeVerif.covarianceUpper
     by_cases hab : a ≤ b
     · simp only [hab, if_true, hmean]
-      have : (sumFin N fun i => scaleData c X i a * scaleData c X i b) = c ^ 2 * sumFin N fun i => X i a * X i b := by
+      have : (sumFin N fun i => (scaleData c X i a - c * TapkeeVerif.computeMean X a) *
+            (scaleData c X i b - c * TapkeeVerif.computeMean X b))
+          = c ^ 2 * sumFin N fun i => (X i a - TapkeeVerif.computeMean X a) * (X i b - TapkeeVerif.computeMean X b) := by
         unfold scaleData
         rw [← sumFin_mul_left]
         exact sumFin_congr fun i => by ring
-      rw [this]
-      ring
+      rw [this, mul_div_assoc]
     · simp only [hab, if_false, mul_zero]
   funext a b
   unfold TapkeeVerif.pcaPre TapkeeVerif.covarianceMatrix TapkeeVerif.mirrorLower
